@@ -84,45 +84,77 @@ SOA = ["sub", "obj", "act"]
 SOAE = ["sub", "obj", "act", "eft"]
 
 
-def family(effects=("AO",)):
-    """name -> (spec, info) for the documented model kinds; info describes the
-    universes a generator should draw policies and requests from"""
-    F = {}
+def kinds(effects=("AO",)):
+    """name -> descriptor {r, p, e, g, m(k) -> matcher for section suffix k, flags}"""
+    K = {}
+
+    def add(name, r, p, e, m, g=None, **flags):
+        d = {"r": r, "p": p, "e": e, "m": m, "g": g or {}}
+        d.update(flags)
+        K[name] = d
+
     for e in effects:
         pf = SOAE if e != "AO" else SOA
         sfx = "" if e == "AO" else "_" + e
-        F["acl" + sfx] = (spec(SOA, pf, e, eq3()), {"r": SOA, "p": pf})
-        F["root" + sfx] = (spec(SOA, pf, e, Or(eq3(), Eq(V("r", "sub"), Lit("root")))), {"r": SOA, "p": pf})
-        F["rbac" + sfx] = (spec(SOA, pf, e, And(Call("g", V("r", "sub"), V("p", "sub")), Eq(V("r", "obj"), V("p", "obj")),
-                                                 Eq(V("r", "act"), V("p", "act"))), g={"g": 2}),
-                           {"r": SOA, "p": pf, "g": {"g": 2}})
-        F["rbac_res" + sfx] = (spec(SOA, pf, e, And(Call("g", V("r", "sub"), V("p", "sub")),
-                                                    Call("g2", V("r", "obj"), V("p", "obj")),
-                                                    Eq(V("r", "act"), V("p", "act"))), g={"g": 2, "g2": 2}),
-                               {"r": SOA, "p": pf, "g": {"g": 2, "g2": 2}})
+        add("acl" + sfx, SOA, pf, e, lambda k: eq3(k))
+        add("root" + sfx, SOA, pf, e, lambda k: Or(eq3(k), Eq(V("r" + k, "sub"), Lit("root"))))
+        add("rbac" + sfx, SOA, pf, e,
+            lambda k: And(Call("g", V("r" + k, "sub"), V("p" + k, "sub")), Eq(V("r" + k, "obj"), V("p" + k, "obj")),
+                          Eq(V("r" + k, "act"), V("p" + k, "act"))), g={"g": 2})
+        add("rbac_res" + sfx, SOA, pf, e,
+            lambda k: And(Call("g", V("r" + k, "sub"), V("p" + k, "sub")), Call("g2", V("r" + k, "obj"), V("p" + k, "obj")),
+                          Eq(V("r" + k, "act"), V("p" + k, "act"))), g={"g": 2, "g2": 2})
         dr = ["sub", "dom", "obj", "act"]
         dp = dr + (["eft"] if e != "AO" else [])
-        F["rbac_dom" + sfx] = (spec(dr, dp, e, And(Call("g", V("r", "sub"), V("p", "sub"), V("r", "dom")),
-                                                   Eq(V("r", "dom"), V("p", "dom")), Eq(V("r", "obj"), V("p", "obj")),
-                                                   Eq(V("r", "act"), V("p", "act"))), g={"g": 3}),
-                               {"r": dr, "p": dp, "g": {"g": 3}, "dom": True})
-    F["no_users"] = (spec(["obj", "act"], ["obj", "act"], "AO",
-                          And(Eq(V("r", "obj"), V("p", "obj")), Eq(V("r", "act"), V("p", "act")))),
-                     {"r": ["obj", "act"], "p": ["obj", "act"]})
-    F["no_resources"] = (spec(["sub", "act"], ["sub", "act"], "AO",
-                              And(Eq(V("r", "sub"), V("p", "sub")), Eq(V("r", "act"), V("p", "act")))),
-                         {"r": ["sub", "act"], "p": ["sub", "act"]})
-    F["keymatch"] = (spec(SOA, SOA, "AO", And(Eq(V("r", "sub"), V("p", "sub")), Call("keyMatch", V("r", "obj"), V("p", "obj")),
-                                              Eq(V("r", "act"), V("p", "act")))),
-                     {"r": SOA, "p": SOA, "paths": True})
-    F["abac"] = (spec(SOA, SOA, "AO", Eq(V("r", "sub"), Prop(V("r", "obj"), "owner"))), {"r": SOA, "p": SOA, "abac": True})
-    F["in_op"] = (spec(SOA, SOA, "AO", Or(And(Call("g", V("r", "sub"), V("p", "sub")), Eq(V("r", "obj"), V("p", "obj")),
-                                              Eq(V("r", "act"), V("p", "act"))),
-                                          In(V("r", "obj"), [Lit("data2"), Lit("data3")])), g={"g": 2}),
-                  {"r": SOA, "p": SOA, "g": {"g": 2}})
-    F["eval_rule"] = (spec(SOA, ["sub_rule", "obj", "act"], "AO",
-                           And(Eval("p", "sub_rule"), Eq(V("r", "obj"), V("p", "obj")), Eq(V("r", "act"), V("p", "act")))),
-                      {"r": SOA, "p": ["sub_rule", "obj", "act"], "eval": True})
+        add("rbac_dom" + sfx, dr, dp, e,
+            lambda k: And(Call("g", V("r" + k, "sub"), V("p" + k, "sub"), V("r" + k, "dom")),
+                          Eq(V("r" + k, "dom"), V("p" + k, "dom")), Eq(V("r" + k, "obj"), V("p" + k, "obj")),
+                          Eq(V("r" + k, "act"), V("p" + k, "act"))), g={"g": 3}, dom=True)
+    add("no_users", ["obj", "act"], ["obj", "act"], "AO",
+        lambda k: And(Eq(V("r" + k, "obj"), V("p" + k, "obj")), Eq(V("r" + k, "act"), V("p" + k, "act"))))
+    add("no_resources", ["sub", "act"], ["sub", "act"], "AO",
+        lambda k: And(Eq(V("r" + k, "sub"), V("p" + k, "sub")), Eq(V("r" + k, "act"), V("p" + k, "act"))))
+    add("keymatch", SOA, SOA, "AO",
+        lambda k: And(Eq(V("r" + k, "sub"), V("p" + k, "sub")), Call("keyMatch", V("r" + k, "obj"), V("p" + k, "obj")),
+                      Eq(V("r" + k, "act"), V("p" + k, "act"))), paths=True)
+    add("abac", SOA, SOA, "AO", lambda k: Eq(V("r" + k, "sub"), Prop(V("r" + k, "obj"), "owner")), abac=True)
+    add("in_op", SOA, SOA, "AO",
+        lambda k: Or(And(Call("g", V("r" + k, "sub"), V("p" + k, "sub")), Eq(V("r" + k, "obj"), V("p" + k, "obj")),
+                         Eq(V("r" + k, "act"), V("p" + k, "act"))),
+                     In(V("r" + k, "obj"), [Lit("data2"), Lit("data3")])), g={"g": 2})
+    add("eval_rule", SOA, ["sub_rule", "obj", "act"], "AO",
+        lambda k: And(Eval("p" + k, "sub_rule"), Eq(V("r" + k, "obj"), V("p" + k, "obj")), Eq(V("r" + k, "act"), V("p" + k, "act"))),
+        eval=True)
+    return K
+
+
+def spec_of(d, copies=("",)):
+    """model spec of a kind descriptor; copies = section suffixes to define ("" = plain)"""
+    parts = []
+    for k in copies:
+        parts.append("r%s=%s" % (k, ",".join(enc(x) for x in d["r"])))
+    for k in copies:
+        parts.append("p%s=%s" % (k, ",".join(enc(x) for x in d["p"])))
+    for gk, n in d["g"].items():
+        parts.append("%s=%d" % (gk, n))
+    for k in copies:
+        parts.append("e%s=%s" % (k, d["e"]))
+    for k in copies:
+        parts.append("m%s={%s}" % (k, d["m"](k)))
+    return ";".join(parts)
+
+
+def family(effects=("AO",)):
+    """name -> (spec, info) (kept for the smoke generators)"""
+    F = {}
+    for name, d in kinds(effects).items():
+        info = {"r": d["r"], "p": d["p"]}
+        if d["g"]:
+            info["g"] = d["g"]
+        for fl in ("dom", "paths", "abac", "eval"):
+            if d.get(fl):
+                info[fl] = True
+        F[name] = (spec_of(d), info)
     return F
 
 
